@@ -258,3 +258,10 @@ Proof.
   intros E R. induction hs as [|h r IH]; [reflexivity|].
   cbn [fold_left]. rewrite reconcile_skips_equal by assumption. exact IH.
 Qed.
+
+Lemma acceptance_order_independent {O} srt iter (other : resources -> option O) vcfg r r' :
+  hsort srt -> map_order iter -> nodup_names r -> perm_res r r' ->
+  (to_config srt (cfg_for iter other vcfg) r = None <-> to_config srt (cfg_for iter other vcfg) r' = None).
+Proof.
+  intros H I N P. rewrite (@to_config_deterministic O srt srt iter iter other vcfg r r' H H I I N P). tauto.
+Qed.
